@@ -557,9 +557,12 @@ def to_docstring(
         else "",
         returns=(
             "{returns}\n{sep}".format(
-                returns=param2docstring_param(
-                    next(iter(intermediate_repr["returns"].items())),
-                    emit_default_doc=emit_default_doc,
+                returns=(
+                    param2docstring_param(
+                        next(iter(intermediate_repr["returns"].items())),
+                        emit_default_doc=emit_default_doc,
+                    )
+                    or ""
                 ).rstrip(),
                 sep=sep,
             )
